@@ -335,6 +335,8 @@ impl<'de, R: Reader<'de>> Deserializer<R> {
         V: de::Visitor<'de>,
     {
         let (raw, status) = self.parser.skip_one()?;
+        // the raw text is handed out as `str`
+        tri!(self.parser.check_invalid_utf8(false));
         if status == ParseStatus::HasEscaped {
             visitor.visit_str(as_str(raw))
         } else {
@@ -346,7 +348,10 @@ impl<'de, R: Reader<'de>> Deserializer<R> {
     where
         V: de::Visitor<'de>,
     {
-        let val = ManuallyDrop::new(self.parser.get_owned_lazyvalue(true)?);
+        let val = self.parser.get_owned_lazyvalue(true)?;
+        // the raw text is handed out as `str`
+        tri!(self.parser.check_invalid_utf8(false));
+        let val = ManuallyDrop::new(val);
         // #Safety
         // the json is validate before parsing json, and we pass the document using visit_bytes
         // here.
@@ -375,9 +380,20 @@ impl<'de, R: Reader<'de>> Deserializer<R> {
                 // parts, it will cause errors when parsing.
                 val.parse_with_padding(String::from_utf8_lossy(json).as_bytes(), cfg)?
             } else {
-                val.parse_with_padding(json, cfg)?
+                let n = val.parse_with_padding(json, cfg)?;
+                if n > json.len() {
+                    // the parser only stopped inside the padding: the document is truncated
+                    self.parser.read.set_index(json.len());
+                    return Err(Error::syntax(EofWhileParsing, json, json.len()));
+                }
+                n
             };
             self.parser.read.eat(n);
+            // the strings of the parsed document must be valid UTF-8 (in lossy mode they have
+            // been repaired above)
+            if !cfg.utf8_lossy {
+                tri!(self.parser.check_invalid_utf8(false));
+            }
         } else {
             let shared = unsafe {
                 if self.shared.is_none() {
